@@ -213,6 +213,15 @@ def evaluate(case, out):
     try:
         idx = CVR.consistent_sampling(cvrs, contests)
         cs, ms = [cvrs[i] for i in idx], [mvrs[i] for i in idx]
+        if len(cvrs) % 5 == 0 and len(idx) >= 2:
+            # a sample may hold the same card more than once (drawing with replacement; the tests are then told that the
+            # population is infinite): every draw is an observation
+            rep = [0, len(idx) // 2, 0]
+            cs, ms = cs + [cs[j] for j in rep], ms + [ms[j] for j in rep]
+            for con in contests.values():
+                for a in con.assertions.values():
+                    a.test.N = np.inf
+            feats.add("card-drawn-more-than-once")
         fresh = {(cid, k): copy.deepcopy(a.test) for cid, con in contests.items() for k, a in con.assertions.items()}
         with contextlib.redirect_stdout(io.StringIO()):
             ret = Assertion.set_p_values(contests, ms, cs)
